@@ -65,7 +65,7 @@ class MemoryUnit:
             self.types[a] = e.memory_location.type_ if e is not None else None
         self.protected = ctx.bool("u_protected")
         # variants of a non-conforming / faulty unit
-        self.stuck_dtr0 = ctx.bool("v_stuck_dtr0") if variants else False
+        self.stuck_dtr0 = ctx.bool("v_stuck_dtr0") if (variants and variants != "no-stuck") else False
         self.unlock_value = ctx.int("v_unlock_value", 0, 255) if variants else 0x55
         self.echo_wrong = ctx.bool("v_echo_wrong") if variants else False
         self.stores_wrong = ctx.bool("v_stores_wrong") if variants else False
